@@ -764,6 +764,33 @@ def make_fields_pub(text):
     """struct fields -> pub (R6, single-file unit). Only named-field structs."""
     toks = lex(text)
     ct = code_tokens(toks)
+    # tuple struct:  struct X<..>(T, U);  ->  struct X<..>(pub T, pub U);
+    for i, t in enumerate(ct):
+        if t.text == "{":
+            break
+        if t.text == "(" and i > 0:
+            c = match_close(ct, i)
+            ins = []
+            depth = 0
+            expect = True
+            j = i + 1
+            while j < c:
+                x = ct[j]
+                if x.text == "#" and ct[j + 1].text == "[":
+                    j = match_close(ct, j + 1) + 1
+                    continue
+                if x.kind == "punct" and x.text in "([{<":
+                    depth += 1
+                elif x.kind == "punct" and x.text in ")]}>":
+                    depth -= 1
+                if depth == 0 and expect and not (x.kind == "punct" and x.text == ","):
+                    if x.text != "pub":
+                        ins.append((x.start, "pub "))
+                    expect = False
+                if depth == 0 and x.text == ",":
+                    expect = True
+                j += 1
+            return apply_inserts(text, ins)
     # find body
     for i, t in enumerate(ct):
         if t.text == "{":
